@@ -45,30 +45,54 @@ pub fn trial(seed: u64, nthreads: usize, iters: usize, out: &str, cases: &str) {
                 let all: Vec<Option<jmespath::Expression<'static>>> = texts.iter().map(|s| jmespath::compile(s).ok()).collect();
                 *shared_exprs.lock().unwrap() = Some(Arc::new(all));
             }
+            // the hot loop only searches and keeps the raw results: abstraction and logging happen afterwards, so that the threads
+            // spend their time inside the library, overlapping with each other
+            enum Raw {
+                Done(Result<jmespath::Rcvar, jmespath::JmespathError>),
+                NoCompile(Value),
+                Panic(Value),
+            }
+            let mut raw: Vec<(usize, Raw)> = Vec::with_capacity(iters);
             for _ in 0..iters {
                 let i = rng.gen_range(0..texts.len());
-                let out = guarded(|| {
-                    let shared = shared_exprs.lock().unwrap().clone();
-                    let use_shared = shared.is_some() && rng.gen_bool(0.6);
+                let shared = shared_exprs.lock().unwrap().clone();
+                let use_shared = shared.is_some() && rng.gen_bool(0.6);
+                let r = std::panic::catch_unwind(std::panic::AssertUnwindSafe(|| {
                     if use_shared {
                         match &shared.unwrap()[i] {
-                            Some(e) => outcome(&e.search(shared_docs[i].clone()), &texts[i]),
-                            None => json!({"err":{"class":"parse","kind":"parse"},"stage":"compile"}),
+                            Some(e) => Raw::Done(e.search(shared_docs[i].clone())),
+                            None => Raw::NoCompile(json!({"err":{"class":"parse","kind":"parse"},"stage":"compile"})),
                         }
                     } else if i == first {
                         match &own {
-                            Ok(e) => outcome(&e.search(shared_docs[i].clone()), &texts[i]),
-                            Err(e) => json!({"err":err_to_json(e, &texts[i]),"stage":"compile"}),
+                            Ok(e) => Raw::Done(e.search(shared_docs[i].clone())),
+                            Err(e) => Raw::NoCompile(json!({"err":err_to_json(e, &texts[i]),"stage":"compile"})),
                         }
                     } else {
                         match jmespath::compile(&texts[i]) {
-                            Ok(e) => outcome(&e.search(shared_docs[i].clone()), &texts[i]),
-                            Err(e) => json!({"err":err_to_json(&e, &texts[i]),"stage":"compile"}),
+                            Ok(e) => Raw::Done(e.search(shared_docs[i].clone())),
+                            Err(e) => Raw::NoCompile(json!({"err":err_to_json(&e, &texts[i]),"stage":"compile"})),
                         }
                     }
-                });
+                }));
+                raw.push((i, r.unwrap_or_else(|_| Raw::Panic(json!({"panic":ascii_cps("panic in a searching thread")})))));
+            }
+            // a thread logs each distinct (case, outcome) once, with the number of times it observed it
+            let mut seen: std::collections::HashMap<(usize, String), usize> = std::collections::HashMap::new();
+            for (i, r) in raw {
+                let out = match r {
+                    Raw::Done(res) => guarded(|| outcome(&res, &texts[i])),
+                    Raw::NoCompile(v) | Raw::Panic(v) => v,
+                };
                 seq += 1;
-                log.push(json!({"e":"sync","thr":t,"seq":seq,"text":pool[i]["text"],"doc":pool[i]["doc"],"out":out}));
+                let key = (i, out.to_string());
+                if let Some(&at) = seen.get(&key) {
+                    let m = log[at]["mult"].as_u64().unwrap_or(1) + 1;
+                    log[at]["mult"] = json!(m);
+                    continue;
+                }
+                seen.insert(key, log.len());
+                log.push(json!({"e":"sync","thr":t,"seq":seq,"mult":1,"text":pool[i]["text"],"doc":pool[i]["doc"],"out":out}));
             }
             results.lock().unwrap().extend(log);
         }));
@@ -89,6 +113,92 @@ pub fn trial(seed: u64, nthreads: usize, iters: usize, out: &str, cases: &str) {
         writeln!(f, "{}", serde_json::to_string(&json!({"e":"sync","thr":-1,"seq":0,"text":pool[0]["text"],"doc":pool[0]["doc"],
                  "out":{"thread_panics":panicked,"docs_same":same}})).unwrap()).unwrap();
     }
+}
+
+/// Lock-step trial: in every round thread 0 publishes a FRESH runtime with the built-ins registered (so everything a runtime or a
+/// function object initialises lazily is initialised again, under contention), all threads leave a spin barrier together, compile the
+/// same few expressions through that runtime and search them in the same order.  Ill-typed and well-typed calls are in the pool:
+/// an error a sequential run reports must be reported under every schedule.
+///   driver sync-lockstep <seed> <threads> <rounds> <events.ndjson> <cases.ndjson>
+#[cfg(feature = "sync")]
+pub fn lockstep(seed: u64, nthreads: usize, rounds: usize, out: &str, cases: &str) {
+    use crate::val::*;
+    use rand::rngs::StdRng;
+    use rand::{Rng, SeedableRng};
+    use serde_json::{json, Value};
+    use std::io::Write;
+    use std::sync::atomic::{AtomicUsize, Ordering};
+    use std::sync::{Arc, Mutex, RwLock};
+
+    let pool: Vec<Value> = std::fs::read_to_string(cases).unwrap_or_default().lines().filter_map(|l| serde_json::from_str(l).ok()).collect();
+    if pool.is_empty() {
+        eprintln!("DRIVER-ERROR no cases");
+        std::process::exit(3);
+    }
+    let texts: Vec<String> = pool.iter().map(|c| uncps(&c["text"])).collect();
+    let docs: Arc<Vec<jmespath::Rcvar>> = Arc::new(pool.iter().map(|c| tagged_to_var(&c["doc"]).unwrap()).collect());
+    let per_round = 6usize;
+    // the schedule of cases is fixed before the threads start: every thread walks the same list
+    let mut rng = StdRng::seed_from_u64(seed ^ 0x10c5);
+    let plan: Arc<Vec<Vec<usize>>> = Arc::new((0..rounds).map(|_| (0..per_round).map(|_| rng.gen_range(0..texts.len())).collect()).collect());
+    let current: Arc<RwLock<Option<&'static jmespath::Runtime>>> = Arc::new(RwLock::new(None));
+    let arrived = Arc::new(AtomicUsize::new(0));
+    let results: Arc<Mutex<Vec<Value>>> = Arc::new(Mutex::new(vec![]));
+    let mut handles = vec![];
+    for t in 0..nthreads {
+        let (plan, current, arrived, results, docs) = (plan.clone(), current.clone(), arrived.clone(), results.clone(), docs.clone());
+        let texts = texts.clone();
+        let pool = pool.clone();
+        handles.push(std::thread::spawn(move || {
+            let mut log: Vec<Value> = vec![];
+            let mut seq = 0u64;
+            let spin = |target: usize| {
+                arrived.fetch_add(1, Ordering::SeqCst);
+                while arrived.load(Ordering::SeqCst) < target {
+                    std::hint::spin_loop();
+                }
+            };
+            for (r, round) in plan.iter().enumerate() {
+                if t == 0 {
+                    let mut rt = jmespath::Runtime::new();
+                    rt.register_builtin_functions();
+                    *current.write().unwrap() = Some(Box::leak(Box::new(rt)));
+                }
+                spin((2 * r + 1) * nthreads);          // the runtime of this round is published
+                let rt: &'static jmespath::Runtime = current.read().unwrap().unwrap();
+                for &i in round.iter() {
+                    let outv = guarded(|| match rt.compile(&texts[i]) {
+                        Ok(e) => outcome(&e.search(docs[i].clone()), &texts[i]),
+                        Err(e) => json!({"err":err_to_json(&e, &texts[i]),"stage":"compile"}),
+                    });
+                    seq += 1;
+                    log.push(json!({"e":"sync","thr":t,"seq":seq,"text":pool[i]["text"],"doc":pool[i]["doc"],"out":outv}));
+                }
+                spin((2 * r + 2) * nthreads);          // nobody still uses it when thread 0 replaces it
+            }
+            results.lock().unwrap().extend(log);
+        }));
+    }
+    let mut panicked = 0;
+    for h in handles {
+        if h.join().is_err() {
+            panicked += 1;
+        }
+    }
+    let mut f = std::fs::OpenOptions::new().create(true).append(true).open(out).unwrap();
+    for e in results.lock().unwrap().iter() {
+        writeln!(f, "{}", serde_json::to_string(e).unwrap()).unwrap();
+    }
+    if panicked > 0 {
+        writeln!(f, "{}", serde_json::to_string(&json!({"e":"sync","thr":-1,"seq":0,"text":pool[0]["text"],"doc":pool[0]["doc"],
+                 "out":{"thread_panics":panicked}})).unwrap()).unwrap();
+    }
+}
+
+#[cfg(not(feature = "sync"))]
+pub fn lockstep(_seed: u64, _nthreads: usize, _rounds: usize, _out: &str, _cases: &str) {
+    eprintln!("DRIVER-ERROR sync-lockstep needs the driver built with --features sync");
+    std::process::exit(3);
 }
 
 #[cfg(not(feature = "sync"))]
